@@ -259,10 +259,13 @@ func RandRead(p []byte) (int, error) {
 
 // Rand replaces *rand.Rand: generators created with rand.New are served from the
 // simulator's stream as well (their seed is ignored), so runs stay reproducible.
-type Rand struct{}
+// A *rand.Rand is not safe for concurrent use; every method writes the plain field
+// `touch` so that the race detector (C19) still sees unsynchronised sharing of one
+// generator although its state lives in the simulator.
+type Rand struct{ touch uint32 }
 
-// Source replaces rand.Source.
-type Source struct{}
+// Source replaces rand.Source (same remark).
+type Source struct{ touch uint32 }
 
 // RandNewSource replaces rand.NewSource.
 func RandNewSource(int64) *Source { return &Source{} }
@@ -270,19 +273,26 @@ func RandNewSource(int64) *Source { return &Source{} }
 // RandNew replaces rand.New.
 func RandNew(*Source) *Rand { return &Rand{} }
 
-func (*Rand) Seed(int64)                  {}
-func (*Rand) Intn(n int) int              { return RandIntn(n) }
-func (*Rand) Int63n(n int64) int64        { return RandInt63n(n) }
-func (*Rand) Int31n(n int32) int32        { return RandInt31n(n) }
-func (*Rand) Int63() int64                { return RandInt63() }
-func (*Rand) Int31() int32                { return int32(RandInt63() >> 32) }
-func (*Rand) Int() int                    { return RandInt() }
-func (*Rand) Uint32() uint32              { return RandUint32() }
-func (*Rand) Uint64() uint64              { return RandUint64() }
-func (*Rand) Float64() float64            { return RandFloat64() }
-func (*Rand) Float32() float32            { return float32(RandFloat64()) }
-func (*Rand) Read(p []byte) (int, error)  { return RandRead(p) }
-func (*Rand) Perm(n int) []int {
+func (s *Source) Int63() int64   { s.touch++; return RandInt63() }
+func (s *Source) Uint64() uint64 { s.touch++; return RandUint64() }
+func (s *Source) Seed(int64)     { s.touch++ }
+
+func (r *Rand) Seed(int64)                 { r.touch++ }
+func (r *Rand) Intn(n int) int             { r.touch++; return RandIntn(n) }
+func (r *Rand) Int63n(n int64) int64       { r.touch++; return RandInt63n(n) }
+func (r *Rand) Int31n(n int32) int32       { r.touch++; return RandInt31n(n) }
+func (r *Rand) Int63() int64               { r.touch++; return RandInt63() }
+func (r *Rand) Int31() int32               { r.touch++; return int32(RandInt63() >> 32) }
+func (r *Rand) Int() int                   { r.touch++; return RandInt() }
+func (r *Rand) Uint32() uint32             { r.touch++; return RandUint32() }
+func (r *Rand) Uint64() uint64             { r.touch++; return RandUint64() }
+func (r *Rand) Float64() float64           { r.touch++; return RandFloat64() }
+func (r *Rand) Float32() float32           { r.touch++; return float32(RandFloat64()) }
+func (r *Rand) NormFloat64() float64       { r.touch++; return RandFloat64()*2 - 1 }
+func (r *Rand) ExpFloat64() float64        { r.touch++; return RandFloat64() }
+func (r *Rand) Read(p []byte) (int, error) { r.touch++; return RandRead(p) }
+func (r *Rand) Perm(n int) []int {
+	r.touch++
 	p := make([]int, n)
 	for i := range p {
 		j := RandIntn(i + 1)
@@ -291,7 +301,8 @@ func (*Rand) Perm(n int) []int {
 	}
 	return p
 }
-func (*Rand) Shuffle(n int, swap func(i, j int)) {
+func (r *Rand) Shuffle(n int, swap func(i, j int)) {
+	r.touch++
 	for i := n - 1; i > 0; i-- {
 		swap(i, RandIntn(i+1))
 	}
